@@ -180,6 +180,24 @@ def _first_byte_sweep(ctx):
             ctx.evaluations += 1
             if got != b"ECHO:" + line:
                 fails.append(Fail("firstbyte:tls-not-echoed", "a real TLS client was not served: %r" % (got,)))
+        # a first byte that arrives LATE (after the server's socket timeout of 2 s has passed once): the connection is
+        # TLS exactly when that byte is 0x16, however long it took - it must never be answered in plaintext
+        import time
+        for first in (0x16, 0x2f):
+            got = None
+            try:
+                c = live.connect(port, 10)
+                time.sleep(3.0)
+                got = live.exchange(c, bytes([first]) + b"late first line\r\nsecond line\r\n", False, 6)
+            except (OSError, socket.timeout) as e:
+                got = e
+            ctx.evaluations += 1
+            ctx.count("late_first_bytes", 1)
+            if first == 0x16 and isinstance(got, bytes) and got.startswith(b"ECHO:"):
+                fails.append(Fail("firstbyte:late-0x16-not-tls", "a client was silent for 3 s (socket timeout 2 s) and then sent a stream "
+                                                                  "starting with 0x16: it was served as plaintext: %r" % got[:40]))
+            if first == 0x2f and isinstance(got, bytes) and got and got != b"ECHO:/late first line\r\n":
+                fails.append(Fail("firstbyte:late-plaintext-altered", "a late plaintext line came back as %r" % got[:60]))
         ctx.label("firstbyte-sweep")
         ctx.count("first_byte_sweep_exhaustive", 1)
         ctx.sample({"first_byte_sweep": "256 plaintext first-byte values + 4 TLS connections on a live socket"}, cls="firstbyte")
